@@ -4,7 +4,7 @@
 From stdpp Require Import gmap.
 From Coq Require Import ZArith Lia.
 From V Require Import Base.Res Base.ResLemmas Sched.LedgerModel Sched.StmtModel Sched.GangModel Sched.LedgerInvP
-                      Sched.NodeCapLemmas C02.BindModel.
+                      Sched.CycleModel Sched.NodeCapLemmas Sched.NodeCapLemmasCycle C02.BindModel.
 Open Scope Z_scope.
 
 Section Bind.
@@ -229,3 +229,246 @@ Proof.
 Qed.
 
 End Refused.
+
+(* ---------- round 3: cache events between the binds ---------- *)
+
+Section Events.
+Variable eps : Z.
+Hypothesis eps_pos : 0 < eps.
+
+(* setNode recomputes the ledger: Idle = Allocatable - sum of the requests of the held copies
+   that are not Pipelined (the mirror of C08_set_node_recomputes_ledger, for Idle) *)
+Lemma fold_set_acc_idle l : forall n,
+  sc (n_idle n) <> None ->
+  let n' := fold_left node_set_acc l n in
+  sc (n_idle n') <> None /\ n_tasks n' = n_tasks n /\ n_has_node n' = n_has_node n /\
+  forall d, amt (n_idle n') d = amt (n_idle n) d - sum_amt (used_amt d) l.
+Proof.
+  induction l as [|t l IH]; intros n Hs; simpl; [repeat split; auto; intros d; lia|].
+  assert (H1 : sc (n_idle (node_set_acc n t)) <> None /\ n_tasks (node_set_acc n t) = n_tasks n /\
+               n_has_node (node_set_acc n t) = n_has_node n /\
+               forall d, amt (n_idle (node_set_acc n t)) d = amt (n_idle n) d - used_amt d t).
+  { unfold node_set_acc, used_amt. destruct (t_status t); simpl; repeat split; auto; try (apply sc_sub_some; exact Hs);
+      intros d; try (rewrite amt_sub_exact by exact Hs); try rewrite bool_decide_eq_false_2 by discriminate;
+      try rewrite bool_decide_eq_true_2 by reflexivity; lia. }
+  destruct H1 as (A1 & A2 & A3 & A4). destruct (IH (node_set_acc n t) A1) as (B1 & B2 & B3 & B4).
+  repeat split; [exact B1|rewrite B2; exact A2|rewrite B3; exact A3|]. intros d. rewrite (B4 d), (A4 d). lia.
+Qed.
+
+Theorem node_set_idle n alloc :
+  sc alloc <> None ->
+  sc (n_idle (node_set n alloc)) <> None /\ n_tasks (node_set n alloc) = n_tasks n /\ n_has_node (node_set n alloc) = true /\
+  forall d, amt (n_idle (node_set n alloc)) d = amt alloc d - sum_amt (used_amt d) (copies n).
+Proof. intros Hs. unfold node_set, copies. apply (fold_set_acc_idle _ (mkNode (n_id n) true alloc empty_res empty_res empty_res alloc (n_tasks n))). exact Hs. Qed.
+
+(* a node update that does not change the allocatable leaves Idle as it was, provided the ledger
+   identity held (node_inv: idle + used = allocatable, used = sum over the held copies) *)
+Corollary node_set_same_alloc n :
+  sc (n_alloc n) <> None ->
+  (forall d, amt (n_idle n) d = amt (n_alloc n) d - sum_amt (used_amt d) (copies n)) ->
+  forall d, amt (n_idle (node_set n (n_alloc n))) d = amt (n_idle n) d.
+Proof. intros Hs Hinv d. destruct (node_set_idle n (n_alloc n) Hs) as (_ & _ & _ & H). rewrite (H d), (Hinv d). reflexivity. Qed.
+
+(* what the sequence theorem carries per node: Idle above -eps when the node keeps a ledger, and
+   copies with non-negative requests none of which is Pipelined (the cache never pipelines) *)
+Definition bnode_ok (n : node) : Prop :=
+  (n_has_node n = true -> idle_ok eps n) /\
+  (forall j c, n_tasks n !! j = Some c -> nonneg (t_req c) /\ t_status c <> Pipelined).
+
+Definition cinv (c : cache) : Prop :=
+  (forall i t, c_heap c !! i = Some t -> nonneg (t_req t) /\ t_status t <> Pipelined) /\
+  nodes_all bnode_ok (c_nodes c).
+
+Lemma node_add_has n t n' t' : node_add eps n t = inl (n', t') -> n_has_node n' = n_has_node n.
+Proof.
+  unfold node_add. repeat case_bool_decide; try discriminate.
+  destruct (n_has_node n) eqn:Hh; simpl; [|intros Hq; inversion Hq; subst; exact Hh].
+  destruct (t_status t); try (intros Hq; inversion Hq; subst; exact Hh).
+  destruct (less_equal_names _ _ _ _); [intros Hq; inversion Hq; subst; exact Hh|discriminate].
+Qed.
+
+Lemma node_remove_has n tid : n_has_node (node_remove n tid) = n_has_node n.
+Proof.
+  unfold node_remove. destruct (n_tasks n !! tid) as [c|]; [|reflexivity].
+  destruct (n_has_node n) eqn:Hh; simpl; [|exact Hh]. destruct (t_status c); exact Hh.
+Qed.
+
+Lemma bnode_remove n tid : bnode_ok n -> bnode_ok (node_remove n tid).
+Proof.
+  intros [Hi Hc]. split.
+  - rewrite node_remove_has. intros Hh. apply node_remove_keeps_idle; [apply Hi; exact Hh|].
+    intros c Hl. apply (Hc _ _ Hl).
+  - intros j c. rewrite node_remove_tasks. intros Hl. apply lookup_delete_Some in Hl as [_ Hl]. apply (Hc _ _ Hl).
+Qed.
+
+(* AddTask of a non-pipelined task whose request fits what is idle (or is re-checked: Binding) *)
+Lemma bnode_add n t n' t' :
+  bnode_ok n -> nonneg (t_req t) -> t_status t <> Pipelined ->
+  (t_status t = Binding \/ (n_has_node n = true -> fits eps (t_req t) (amt (n_idle n)))) ->
+  node_add eps n t = inl (n', t') -> bnode_ok n'.
+Proof.
+  intros [Hi Hc] Hnn Hnp Hg Ha. split.
+  - rewrite (node_add_has _ _ _ _ Ha). intros Hh. specialize (Hi Hh).
+    destruct Hg as [Hb|Hf]; [eapply node_add_binding_keeps_idle; eauto|]. specialize (Hf Hh).
+    destruct Hi as [Hs Hidle]. revert Ha. unfold node_add. repeat case_bool_decide; try discriminate.
+    rewrite Hh. simpl.
+    assert (Hsub : idle_ok eps (node_with n (sub (n_idle n) (t_req t)) (add (n_used n) (t_req t)) (n_releasing n) (n_pipelined n)
+                                     (<[t_id t := set_node t (Some (n_id n))]> (n_tasks n)))).
+    { split; simpl; [apply sc_sub_some; exact Hs|]. intros d Hd. rewrite amt_sub_exact by exact Hs. specialize (Hf d Hd). lia. }
+    assert (Hsub' : forall rel, idle_ok eps (node_with n (sub (n_idle n) (t_req t)) (add (n_used n) (t_req t)) rel (n_pipelined n)
+                                     (<[t_id t := set_node t (Some (n_id n))]> (n_tasks n)))).
+    { intros rel. destruct Hsub as [S1 S2]. split; [exact S1|exact S2]. }
+    destruct (t_status t); try congruence; try (intros Hq; inversion Hq; subst; apply Hsub'); try (intros Hq; inversion Hq; subst; exact Hsub).
+    destruct (less_equal_names _ _ _ _); [intros Hq; inversion Hq; subst; exact Hsub|discriminate].
+  - intros j c. rewrite (node_add_tasks eps _ _ _ _ Ha). intros Hl.
+    apply lookup_insert_Some in Hl as [[_ <-]|[_ Hl]]; [split; assumption|apply (Hc _ _ Hl)].
+Qed.
+
+(* UpdatePod with a deletionTimestamp on the node: the copy (not Pipelined) is removed and re-added
+   as Releasing with the same request: Idle keeps its amounts *)
+Lemma bnode_reterminate n t cp n' t' :
+  bnode_ok n -> n_tasks n !! t_id t = Some cp -> t_req cp = t_req t -> t_status t = Releasing ->
+  node_add eps (node_remove n (t_id t)) t = inl (n', t') -> bnode_ok n'.
+Proof.
+  intros Hb Hl Hr Hst Ha. pose proof Hb as [Hi Hc]. destruct (Hc _ _ Hl) as [Hnn Hnp]. rewrite Hr in Hnn.
+  apply (bnode_add (node_remove n (t_id t)) t n' t'); [apply bnode_remove; exact Hb|exact Hnn|rewrite Hst; discriminate| |exact Ha].
+  right. rewrite node_remove_has. intros Hh. destruct (Hi Hh) as [Hs Hidle].
+  assert (Hidle1 : forall d, amt (n_idle (node_remove n (t_id t))) d = amt (n_idle n) d + amt (t_req t) d).
+  { intros d. unfold node_remove. rewrite Hl, Hh, Hr. simpl. destruct (t_status cp); try congruence; simpl; apply amt_add. }
+  intros d Hd. rewrite (Hidle1 d). specialize (Hidle d Hd). lia.
+Qed.
+
+(* side conditions of an event: the cluster state it delivers is itself within capacity and
+   consistent with what the cache holds (C08 proves the latter as its Rep invariant) *)
+Definition ev_ok (c : cache) (e : cache_ev) : Prop :=
+  match e with
+  | EvNode nid alloc =>
+    sc alloc <> None /\
+    forall d, guarded_dim d ->
+      sum_amt (used_amt d) (copies (default (placeholder nid) (c_nodes c !! nid))) < amt alloc d + eps
+  | EvTerminating tid =>
+    forall st i, c_heap c !! tid = Some st -> t_node st = Some i ->
+      t_id st = tid /\ terminated (t_status st) = false /\
+      forall n, c_nodes c !! i = Some n -> exists cp, n_tasks n !! tid = Some cp /\ t_req cp = t_req st
+  | EvDelete _ => True
+  | EvPodAdd t =>
+    nonneg (t_req t) /\ t_status t <> Pipelined /\ t_status t <> Binding /\
+    forall i n, t_node t = Some i -> c_nodes c !! i = Some n -> n_has_node n = true -> fits eps (t_req t) (amt (n_idle n))
+  end.
+
+Lemma bnode_placeholder i : bnode_ok (placeholder i).
+Proof. split; [simpl; discriminate|]. intros j c Hl. simpl in Hl. rewrite lookup_empty in Hl. discriminate. Qed.
+
+Lemma add_to_node_ok ns t :
+  nodes_all bnode_ok ns -> nonneg (t_req t) -> t_status t <> Pipelined ->
+  (forall i n, t_node t = Some i -> ns !! i = Some n ->
+     t_status t = Binding \/ (n_has_node n = true -> fits eps (t_req t) (amt (n_idle n)))) ->
+  nodes_all bnode_ok (add_to_node eps ns t).
+Proof.
+  intros Hall Hnn Hnp Hg. unfold add_to_node. destruct (t_node t) as [i|] eqn:Hn; [|exact Hall].
+  assert (Hn0 : bnode_ok (default (placeholder i) (ns !! i))).
+  { destruct (ns !! i) as [n|] eqn:E; simpl; [apply (Hall _ _ E)|apply bnode_placeholder]. }
+  destruct (terminated (t_status t)); [apply nodes_all_insert; assumption|].
+  destruct (node_add eps (default (placeholder i) (ns !! i)) t) as [[n' t']|e] eqn:Ea; [|apply nodes_all_insert; assumption].
+  apply nodes_all_insert; [exact Hall|]. apply (bnode_add _ t n' t' Hn0 Hnn Hnp); [|exact Ea].
+  destruct (ns !! i) as [n|] eqn:E; simpl; [apply (Hg i n eq_refl E)|right; simpl; discriminate].
+Qed.
+
+Lemma remove_from_node_ok ns t : nodes_all bnode_ok ns -> nodes_all bnode_ok (remove_from_node ns t).
+Proof.
+  intros Hall. unfold remove_from_node. destruct (t_node t) as [i|]; [|exact Hall].
+  destruct (ns !! i) as [n|] eqn:E; [|exact Hall]. destruct (terminated (t_status t)); [exact Hall|].
+  apply nodes_all_insert; [exact Hall|]. apply bnode_remove. apply (Hall _ _ E).
+Qed.
+
+(* every cache event keeps the invariant *)
+Theorem cache_event_keeps c e : cinv c -> ev_ok c e -> cinv (cache_event eps c e).
+Proof.
+  intros [Hheap Hall] Hev. destruct e as [nid alloc|tid|tid|t]; simpl.
+  - (* node add / update: the ledger is recomputed *)
+    destruct Hev as [Hs Hsum]. split; [exact Hheap|]. simpl. unfold node_event. apply nodes_all_insert; [exact Hall|].
+    destruct (c_nodes c !! nid) as [n|] eqn:E; simpl in Hsum.
+    + destruct (node_set_idle n alloc Hs) as (S1 & S2 & S3 & S4). split.
+      * intros _. split; [exact S1|]. intros d Hd. rewrite (S4 d). specialize (Hsum d Hd). lia.
+      * intros j cp. rewrite S2. apply (Hall _ _ E).
+    + split; [|intros j cp Hl; simpl in Hl; rewrite lookup_empty in Hl; discriminate].
+      intros _. split; [exact Hs|]. intros d Hd. simpl. specialize (Hsum d Hd).
+      unfold copies in Hsum. simpl in Hsum. rewrite map_to_list_empty in Hsum. simpl in Hsum. lia.
+  - (* pod turned terminating *)
+    destruct (c_heap c !! tid) as [st|] eqn:Eh; [|split; assumption]. destruct (Hheap _ _ Eh) as [Hnn Hnp].
+    split; simpl.
+    + intros i u Hl. apply lookup_insert_Some in Hl as [[_ <-]|[_ Hl]]; [split; [exact Hnn|simpl; discriminate]|apply (Hheap _ _ Hl)].
+    + apply add_to_node_ok; [apply remove_from_node_ok; exact Hall|exact Hnn|simpl; discriminate|].
+      simpl t_node. intros i n Hi Hl. right. intros Hh.
+      destruct (Hev st i Eh Hi) as (Hid & Hterm & Hcp).
+      unfold remove_from_node in Hl. rewrite Hi in Hl. destruct (c_nodes c !! i) as [n0|] eqn:E0; [|rewrite E0 in Hl; discriminate].
+      rewrite Hterm, lookup_insert in Hl. inversion Hl; subst n. clear Hl.
+      destruct (Hcp n0 eq_refl) as (cp & Hlcp & Hreq). destruct (Hall _ _ E0) as [Hi0 Hc0].
+      rewrite node_remove_has in Hh. destruct (Hi0 Hh) as [Hs0 Hidle0]. destruct (Hc0 _ _ Hlcp) as [_ Hcpnp].
+      assert (Hidle1 : forall d, amt (n_idle (node_remove n0 (t_id st))) d = amt (n_idle n0) d + amt (t_req st) d).
+      { intros d. unfold node_remove. rewrite Hid, Hlcp, Hh, Hreq. simpl. destruct (t_status cp); try congruence; simpl; apply amt_add. }
+      intros d Hd. simpl. rewrite (Hidle1 d). specialize (Hidle0 d Hd). lia.
+  - (* pod deleted *)
+    destruct (c_heap c !! tid) as [st|] eqn:Eh; [|split; assumption]. split; simpl.
+    + intros i u Hl. apply lookup_delete_Some in Hl as [_ Hl]. apply (Hheap _ _ Hl).
+    + apply remove_from_node_ok. exact Hall.
+  - (* pod arrives *)
+    destruct Hev as (Hnn & Hnp & Hnb & Hfit). split; simpl.
+    + intros i u Hl. apply lookup_insert_Some in Hl as [[_ <-]|[_ Hl]]; [split; assumption|apply (Hheap _ _ Hl)].
+    + apply add_to_node_ok; try assumption. intros i n Hi Hl. right. apply (Hfit i n Hi Hl).
+Qed.
+
+(* AddBindTask keeps it too *)
+Lemma add_bind_task_heap c r i u :
+  c_heap (fst (add_bind_task eps c r)) !! i = Some u ->
+  exists t0, c_heap c !! i = Some t0 /\ t_req u = t_req t0 /\ (t_status u = t_status t0 \/ t_status u = Binding).
+Proof.
+  unfold add_bind_task.
+  destruct (c_jobs c !! b_job r) as [j|]; [|simpl; eauto].
+  destruct (negb _); [simpl; eauto|].
+  destruct (c_heap c !! b_task r) as [t|] eqn:Et; [|simpl; eauto].
+  destruct (c_nodes c !! b_node r) as [n|]; [|simpl; eauto].
+  unfold job_update. cbv beta zeta iota.
+  assert (Hgen : forall x, t_req x = t_req t -> (t_status x = t_status t \/ t_status x = Binding) ->
+            forall y, t_req y = t_req t -> (t_status y = t_status t \/ t_status y = Binding) ->
+            <[b_task r := x]> (<[b_task r := y]> (c_heap c)) !! i = Some u ->
+            exists t0, c_heap c !! i = Some t0 /\ t_req u = t_req t0 /\ (t_status u = t_status t0 \/ t_status u = Binding)).
+  { intros x Hx1 Hx2 y _ _ Hl. rewrite insert_insert in Hl. apply lookup_insert_Some in Hl as [[<- <-]|[_ Hl]]; eauto. }
+  destruct (b_decision_fails r); simpl.
+  - intros Hl. eapply Hgen; [| | | |exact Hl]; simpl; auto.
+  - destruct (node_add eps n (set_status t Binding)) as [[n' t2]|e] eqn:Ea; simpl.
+    + rewrite (node_add_ret eps _ _ _ _ Ea). intros Hl. eapply Hgen; [| | | |exact Hl]; simpl; auto.
+    + intros Hl. eapply Hgen; [| | | |exact Hl]; simpl; auto.
+Qed.
+
+Theorem add_bind_task_keeps_cinv c r : cinv c -> cinv (fst (add_bind_task eps c r)).
+Proof.
+  intros [Hheap Hall]. split.
+  - intros i u Hl. destruct (add_bind_task_heap c r i u Hl) as (t0 & Hl0 & Hr & Hs). destruct (Hheap _ _ Hl0) as [H1 H2].
+    split; [rewrite Hr; exact H1|]. destruct Hs as [-> | ->]; [exact H2|discriminate].
+  - destruct (add_bind_task_effect eps c r) as [n t n' t' Hn Ht Ha Hc|o _ Hc]; rewrite Hc; [|exact Hall].
+    apply nodes_all_insert; [exact Hall|]. destruct (Hheap _ _ Ht) as [Hnn _].
+    apply (bnode_add n (set_status t Binding) n' t'); [apply (Hall _ _ Hn)|exact Hnn|simpl; discriminate|left; reflexivity|exact Ha].
+Qed.
+
+Definition op_ok (c : cache) (o : cache_op) : Prop := match o with OpBind _ => True | OpEv e => ev_ok c e end.
+Fixpoint ops_ok (c : cache) (l : list cache_op) : Prop :=
+  match l with [] => True | o :: l' => op_ok c o /\ ops_ok (fst (cache_step eps c o)) l' end.
+
+(* B, round 3: histories that interleave AddBindTask calls (arbitrary, as before) with cache
+   events -- node updates that recompute the ledger, pods turning terminating, pods deleted,
+   pods (and their node) arriving -- keep every node's Idle above -eps after every prefix,
+   provided the delivered cluster states are themselves within capacity (ev_ok) *)
+Theorem bind_events_safe l : forall c k,
+  cinv c -> ops_ok c l -> cinv (ops_state eps c (take k l)).
+Proof.
+  induction l as [|o l IH]; intros c k Hc Hok; [rewrite take_nil; exact Hc|].
+  destruct k as [|k]; [exact Hc|]. destruct Hok as [Ho Hok]. simpl. apply IH; [|exact Hok].
+  destruct o as [r|e]; simpl; [apply add_bind_task_keeps_cinv; exact Hc|apply cache_event_keeps; assumption].
+Qed.
+
+Corollary bind_events_idle l c k i n :
+  cinv c -> ops_ok c l -> c_nodes (ops_state eps c (take k l)) !! i = Some n -> n_has_node n = true -> idle_ok eps n.
+Proof. intros Hc Hok Hl Hh. destruct (bind_events_safe l c k Hc Hok) as [_ Hall]. apply (Hall _ _ Hl). exact Hh. Qed.
+
+End Events.
